@@ -38,6 +38,7 @@ type HarnessResult struct {
 	Unwind        int               `json:"unwind_bound"`
 	WallS         float64           `json:"wall_s"`
 	Truncated     bool              `json:"path_limit_hit,omitempty"`
+	Compose       *composeResult    `json:"scheduler_composition,omitempty"`
 	StageA        int               `json:"string_queries_decided_unbounded"`
 	StageB        int               `json:"string_queries_decided_bounded"`
 	StrLen        int               `json:"string_length_bound_stage_b"`
@@ -176,6 +177,7 @@ func (w *World) runHarness(h *Harness, workers int, solverKind string, nvalid in
 		timeout *= 3
 	}
 	ceSeen := map[string]int{}
+	var traceSet map[string]*opTrace
 	var wg sync.WaitGroup
 	for k := 0; k < workers; k++ {
 		wg.Add(1)
@@ -270,6 +272,12 @@ func (w *World) runHarness(h *Harness, workers int, solverKind string, nvalid in
 				for f, n := range pr.Funcs {
 					res.Funcs[f] += n
 				}
+				if pr.Trace != nil && pr.Stop.kind == "done" {
+					if traceSet == nil {
+						traceSet = map[string]*opTrace{}
+					}
+					traceSet[pr.Trace.key()] = pr.Trace
+				}
 				switch pr.Stop.kind {
 				case "done":
 					res.Done++
@@ -312,6 +320,45 @@ func (w *World) runHarness(h *Harness, workers int, solverKind string, nvalid in
 		}(k)
 	}
 	wg.Wait()
+	if h.Compose {
+		var ts []*opTrace
+		for _, t := range traceSet {
+			ts = append(ts, t)
+		}
+		cr := composeAll(ts, "z3new", timeout)
+		res.Compose = cr
+		res.Obligations += cr.Pairs
+		res.Discharged += cr.Unsat
+		res.Queries += cr.Pairs
+		if cr.Unknown > 0 {
+			res.Inconcl = append(res.Inconcl, fmt.Sprintf("scheduler composition: %d trace pairs unknown", cr.Unknown))
+		}
+		if len(ts) == 0 {
+			res.Inconcl = append(res.Inconcl, "scheduler composition: no request traces extracted")
+		}
+		if cr.Consistent == 0 {
+			res.Inconcl = append(res.Inconcl, "scheduler composition: vacuity: no pair of traces has a consistent interleaving")
+		}
+		for _, c := range cr.CEs {
+			// the counterexample for the native concurrent driver: schedule and the two traces as an nd vector
+			ce := &CounterExample{Harness: h.Name + "_replay", Obligation: "C12.conc.single-refresh-all-served-newest-tokens", Kind: "assert",
+				Msg: fmt.Sprintf("interleaving of two requests violates the property (%s): A=%s B=%s schedule=%v", c.Why, c.A.key(), c.B.key(), c.Schedule), Pos: h.Name}
+			add := func(tag string, v int) {
+				ce.ND = append(ce.ND, ndEntry{Seq: len(ce.ND), Kind: "choice", Tag: tag, Val: v})
+			}
+			add("schedule-len", len(c.Schedule))
+			for _, w := range c.Schedule {
+				add("who", w)
+			}
+			for k, t := range []*opTrace{c.A, c.B} {
+				add(fmt.Sprintf("trace%d-len", k), len(t.Ops))
+				for _, o := range t.Ops {
+					add("op-"+o.Name, o.Res)
+				}
+			}
+			res.CEs = append(res.CEs, ce)
+		}
+	}
 	res.WallS = time.Since(t0).Seconds()
 	// vacuity: every verifReach id in the harness source must have been reached
 	for _, id := range reachIDs(h.File, h.Name) {
